@@ -18,4 +18,5 @@ open Emboss.Tok
 #print axioms C10_word_classes
 #print axioms C10_number_classes_partial
 #print axioms C10_word_tokens
+#print axioms C10_word_tokens_are_maximal_runs
 #print axioms C10_number_classes_counterexample
